@@ -108,6 +108,8 @@ func (p *plainTask) Start() {
 // on the context: with k < laneSize workers pinned, a task queued behind a pinned worker is started by an idle one.
 // The lane can never be shut down, so this runs on the real clock outside a bubble and leaves the lane's goroutines
 // parked; "as soon as" is judged with a bound of seconds on something that takes microseconds.
+const waitPatience = 90 * time.Second
+
 func TestNeverCancelledContext(t *testing.T) {
 	rt.Check(t, 12, 600, func(t *rapid.T) {
 		var ctx context.Context
@@ -128,7 +130,7 @@ func TestNeverCancelledContext(t *testing.T) {
 		queue := rapid.IntRange(1, 3).Draw(t, "queueSize")
 		pinned := rapid.IntRange(1, lanes-1).Draw(t, "pinnedWorkers")
 		tl := tasklane.New(ctx, lanes, queue)
-		tl.SetTimeout(2 * time.Second)
+		tl.SetTimeout(2 * time.Minute) // never reached on a lane that works; a loaded machine must not turn into a timeout
 		gate := make(chan struct{})
 		defer close(gate)
 		var blockers []*plainTask
@@ -140,7 +142,9 @@ func TestNeverCancelledContext(t *testing.T) {
 			}
 		}
 		waitFor := func(cond func() bool) bool {
-			deadline := time.Now().Add(5 * time.Second)
+			// microseconds on a lane that works; the bound only ends the wait for something that will never happen, and is
+			// far beyond anything a loaded machine needs
+			deadline := time.Now().Add(waitPatience)
 			for !cond() {
 				if time.Now().After(deadline) {
 					return false
@@ -157,7 +161,7 @@ func TestNeverCancelledContext(t *testing.T) {
 			}
 			return true
 		}) {
-			t.Fatalf("%s context, laneSize %d: the %d blocking tasks were not all started within 5s", flavour, lanes, pinned)
+			t.Fatalf("%s context, laneSize %d: the %d blocking tasks were not all started within a minute and a half", flavour, lanes, pinned)
 		}
 		// everything else goes to the pinned lanes: behind a busy worker, while lanes-pinned workers are idle
 		var rest []*plainTask
@@ -184,7 +188,7 @@ func TestNeverCancelledContext(t *testing.T) {
 					n++
 				}
 			}
-			t.Fatalf("lane on a %s context, laneSize %d, queueSize %d: %d workers are pinned by long tasks, %d are idle, and %d tasks were queued behind the pinned workers - only %d of them were started within 5s", flavour, lanes, queue, pinned, lanes-pinned, len(rest), n)
+			t.Fatalf("lane on a %s context, laneSize %d, queueSize %d: %d workers are pinned by long tasks, %d are idle, and %d tasks were queued behind the pinned workers - only %d of them were started within a minute and a half", flavour, lanes, queue, pinned, lanes-pinned, len(rest), n)
 		}
 		for _, p := range rest {
 			if c := p.started.Load(); c != 1 {
@@ -195,5 +199,35 @@ func TestNeverCancelledContext(t *testing.T) {
 		ev.Case(true, ev.Hash("never", flavour, fmt.Sprint(lanes, queue, pinned)), func() string {
 			return fmt.Sprintf("lane on a %s context: laneSize %d, queueSize %d, %d workers pinned, %d tasks queued behind them all ran on the idle workers", flavour, lanes, queue, pinned, len(rest))
 		})
+	})
+}
+
+// TestLongLivedLane: a lane that has already served thousands of tasks is a lane like on its first day. The worker of
+// lane 0 takes n instant tasks one by one (the lane settles after each), n around 4096 and 8192; then every worker is
+// given a gated task and more gated tasks are queued behind them: never more than laneSize run, and the queued ones
+// wait. (Whatever a worker does after so many tasks - renewing its goroutine, trimming a buffer - stays inside.)
+func TestLongLivedLane(t *testing.T) {
+	rt.Check(t, 12, 1500, func(t *rapid.T) {
+		lanes := rapid.IntRange(1, 3).Draw(t, "laneSize")
+		n := rapid.SampledFrom([]int{4093, 4094, 4095, 4096, 4097, 8190, 8191, 8192}).Draw(t, "warmUpTasks") + rapid.IntRange(0, 2).Draw(t, "plus")
+		p := ls.Program{LaneSize: lanes, QueueSize: rapid.IntRange(1, 3).Draw(t, "queueSize"), Timeout: time.Second}
+		for i := 0; i < n; i++ {
+			p.Ops = append(p.Ops, ls.Op{Kind: ls.OpPush, Lane: 0, Task: ls.TaskSpec{Kind: ls.TInstant}}, ls.Op{Kind: ls.OpSettle})
+		}
+		for round := 0; round < 2; round++ {
+			for l := 0; l < lanes; l++ {
+				p.Ops = append(p.Ops, ls.Op{Kind: ls.OpPush, Lane: l, Task: ls.TaskSpec{Kind: ls.TGated, Gate: 1}}, ls.Op{Kind: ls.OpSettle})
+			}
+		}
+		p.Ops = append(p.Ops, ls.Op{Kind: ls.OpStatus}, ls.Op{Kind: ls.OpOpen, Gate: 1}, ls.Op{Kind: ls.OpSettle})
+		res, bubble := ls.RunInBubble(t, p)
+		if bubble != "" {
+			t.Fatalf("the bubble failed: %s\nprogram: %s", bubble, p)
+		}
+		if own := ls.Own(res, "C08"); len(own) > 0 {
+			t.Fatalf("%s\nprogram: %s", strings.Join(own, "\n"), p)
+		}
+		ev.Label("lane_that_has_served_thousands_of_tasks")
+		ev.Case(res.MaxRunning == lanes, ev.Hash("long", p.String()), func() string { return fmt.Sprintf("%s => maxRunning=%d", p, res.MaxRunning) })
 	})
 }
